@@ -532,7 +532,118 @@ def sub_master(case):
     return {'devs': D.devs, 'n': D.n, 'nt': nt, 'out': D.out}
 
 
-SUBS = {'paths': sub_paths, 'api': sub_api, 'master': sub_master}
+# --------------------------------------------------------------------------- call histories on the parent
+KH_EVENTS = ['address', 'address_uncompressed', 'hash160', 'fingerprint', 'wif', 'wif_private', 'wif_public',
+             'public', 'public_hex', 'public_uncompressed_hex', 'as_dict', 'child_private_1', 'child_public_1',
+             'subkey_m_0h', 'address_obj', 'info_str']
+KH_DERIVE = ['child_private_2', 'child_private_hard', 'child_public_2', 'path_1_2', 'public_then_child_public_3',
+             'path_M_1']
+
+
+def _kh_event(k, ev):
+    if ev == 'address':
+        k.address()
+    elif ev == 'address_uncompressed':
+        k.address(compressed=False, encoding='base58')
+    elif ev == 'hash160':
+        k.hash160
+    elif ev == 'fingerprint':
+        k.fingerprint
+    elif ev == 'wif':
+        k.wif()
+    elif ev == 'wif_private':
+        k.wif_private()
+    elif ev == 'wif_public':
+        k.wif_public()
+    elif ev == 'public':
+        k.public()
+    elif ev == 'public_hex':
+        k.public_hex
+    elif ev == 'public_uncompressed_hex':
+        k.public_uncompressed_hex
+    elif ev == 'as_dict':
+        k.as_dict()
+    elif ev == 'child_private_1':
+        k.child_private(1)
+    elif ev == 'child_public_1':
+        k.child_public(1)
+    elif ev == 'subkey_m_0h':
+        k.subkey_for_path("0'")
+    elif ev == 'address_obj':
+        k.address_obj
+    elif ev == 'info_str':
+        str(k)
+        repr(k)
+    else:
+        raise ValueError(ev)
+
+
+def sub_khist(case):
+    """case = {'root': spec, 'hist': [events]}: the events are queries on the parent key object (addresses in both
+    compression forms, hashes, exports, earlier derivations); afterwards every derivation of KH_DERIVE from that
+    SAME object must give the BIP32 child - key, chain code, depth, child number, parent fingerprint, xprv/xpub -
+    of the parent, exactly as on a fresh object, and the parent itself must still show the reference fields."""
+    D = _Devs()
+    spec, hist = case['root'], case['hist']
+    ref = _ref_root(spec)
+    private = not spec['import'].startswith('xpub')
+    try:
+        k = _lib_root(spec, ref)
+    except Exception as e:
+        D.dev('khist|root_import_raises', {'root': spec, 'exc': repr(e)[:200]})
+        return {'devs': D.devs, 'n': 1, 'out': D.out}
+    applied = []
+    for ev in hist:
+        try:
+            _kh_event(k, ev)
+            applied.append(ev)
+        except Exception:
+            applied.append(ev + ':refused')      # e.g. private exports / hardened children on a public key
+    tag = '+'.join(a for a in applied if not a.endswith(':refused')) or 'none'
+    nt = 0
+    for dv in KH_DERIVE:
+        want_priv = private
+        try:
+            if dv == 'child_private_2':
+                if not private:
+                    continue
+                got, r = k.child_private(2), bip32.ckd_priv(ref, 2)
+            elif dv == 'child_private_hard':
+                if not private:
+                    continue
+                got, r = k.child_private(3, hardened=True), bip32.ckd_priv(ref, 3 + HARD)
+            elif dv == 'child_public_2':
+                got, r, want_priv = k.child_public(2), bip32.ckd_pub(ref.neuter(), 2), False
+            elif dv == 'path_1_2':
+                got = k.subkey_for_path('1/2')
+                r = bip32.derive(ref, [1, 2]) if private else bip32.ckd_pub(bip32.ckd_pub(ref.neuter(), 1), 2)
+            elif dv == 'public_then_child_public_3':
+                got, r, want_priv = k.public().child_public(3), bip32.ckd_pub(ref.neuter(), 3), False
+            else:
+                if not private or ref.depth != 0:
+                    continue
+                got, r, want_priv = k.subkey_for_path('M/1'), bip32.ckd_pub(ref.neuter(), 1), False
+        except Exception as e:
+            D.dev('khist|derivation_raises_after_parent_queries|%s' % dv, {'root': spec, 'hist': hist, 'exc': repr(e)[:200]})
+            continue
+        D.n += 1
+        nt += 1
+        bad = _diff(got, r, want_priv)
+        if bad:
+            D.dev('khist|child_differs_from_bip32_after_parent_queries|%s|%s' % (dv, '+'.join(bad)),
+                  {'root': spec, 'hist': hist, 'applied': applied, 'fields': bad})
+            D.label('child_dev')
+        else:
+            D.label('child_ok')
+    bad = _diff(k, ref, private)
+    D.n += 1
+    if bad:
+        D.dev('khist|parent_fields_changed_by_queries|%s' % '+'.join(bad), {'root': spec, 'hist': hist, 'applied': applied})
+    return {'devs': D.devs, 'n': D.n, 'nt': ['%s|%s|%d' % (_spec_key(spec), ','.join(hist), i) for i in range(nt)],
+            'out': D.out}
+
+
+SUBS = {'paths': sub_paths, 'api': sub_api, 'master': sub_master, 'khist': sub_khist}
 
 
 # ---------------------------------------------------------------------------------------------------- run
@@ -624,6 +735,21 @@ def run(ctx):
                     deep.append({'root': r, 'prefix': [e, e2], 'ext': 8, 'alpha': 'deep2', 'only_full': True})
     if want('paths'):
         ctx.pmap('paths', cases + deep, chunk=1)
+    # ---- call histories on the parent object before deriving from it
+    if want('khist'):
+        kroots = [{'seed': VEC_SEEDS[0], 'import': 'seed_bytes'}, {'seed': VEC_SEEDS[1], 'at': [HARD], 'import': 'xprv'},
+                  {'seed': VEC_SEEDS[2], 'at': [1], 'import': 'xpub'}]
+        if not q:
+            kroots += [{'seed': seeds[0], 'import': 'key_chain'}, {'seed': VEC_SEEDS[1], 'import': 'xpub_from_wif'}]
+        L = 2 if q else 3
+        kc = []
+        for r in kroots:
+            for l in range(0, L + 1):
+                for h in itertools.product(KH_EVENTS, repeat=l):
+                    kc.append({'root': r, 'hist': list(h)})
+        ctx.pmap('khist', kc)
+        ctx.note('parent_histories', {'events': KH_EVENTS, 'derivations': KH_DERIVE, 'max_len': L, 'roots': len(kroots),
+                                      'cases': len(kc)})
     # ---- integer API
     if want('api'):
         ac = []
